@@ -5,9 +5,9 @@ import json, glob, os, re, subprocess, sys, time
 os.chdir('/verif')
 prefix = sys.argv[1] if len(sys.argv) > 1 else ''
 REGRESS = {'c6da5e0':'C02','ed37301':'C03','bc2c2ae':'C04','ca9c2c9':'C07','3f41bb6':'C06','bcedf17':'C08','70830e7':'C09','69c6f4d':'C09','5338602':'C09','296d4f4':'C11',
-           '7e5762b':'C12','4f87c3f':'C14','065f673':'C15','e70172f':'C15','eee16f5':'C17','43726c7':'C17','493b804':'C19','7c4d93a':'C15'}
+           '7e5762b':'C12','4f87c3f':'C14','065f673':'C15','e70172f':'C15','eee16f5':'C17','43726c7':'C17','493b804':'C19','7c4d93a':'C15','677d4ab':'C06'}
 # changes whose defect is a concurrency defect filed under a sequential property: judged by the neighbouring check
-OTHER = {'C02-r2a':'C04','C11-r2b':'C17','C12-r2a':'C17'}
+OTHER = {'C02-r2a':'C04','C11-r2b':'C17','C12-r2a':'C17','C02-r4b':'C03','C08-r4b':'C11','C01-r5a':'C04','C04-r5b':'C13'}
 jobs = []
 DONE = set(os.environ.get('RECHECK_SKIP','').split(','))
 for d in sorted(glob.glob('seeded/C*-*')):
@@ -22,7 +22,7 @@ for f in sorted(glob.glob('seeded/regress/revert-*.diff')):
 out = {}
 for k, patch, cid in jobs:
     t0 = time.time()
-    p = subprocess.run(['tools/with_patch.sh', patch, './check', cid, 'quick'], capture_output=True, text=True, timeout=3600)
+    p = subprocess.run(['tools/with_patch.sh', patch, './check', cid, 'quick'], capture_output=True, text=True, timeout=3600, env=dict(os.environ, VERIF_NO_EVIDENCE='1'))
     txt = p.stdout + p.stderr
     kinds = {}
     for l in txt.splitlines():
